@@ -189,6 +189,34 @@ def c04(res, tier, seed):
                     if q[1] is not None: e["qv"] = {"t": "int", "v": q[1]}
                     text = cg.show(e)[0]
                     groups.append({"src": rule_text(text), "bufs": of_bufs, "pre": EXT_DEFS}); metas.append((text, e)); nof += 1
+    # the same kind of conditions on data handed over as 2-3 memory blocks (cut where no occurrence of a string straddles the cut):
+    # offsets, counts and ranges are about positions in the DATA, whatever block a match was found in
+    blk_bufs = [b"#1#.....#1#....#1#.+2+", b"..#1#.......=3=..#1#...#1#", b"+2+#1#......#1#=3=....#1#", b"#1#............#1#"]
+    nblk = 0
+    def cuts_for(bb):
+        occ = [o for k in cg.STRS for o in occurrences(bb, cg.STR_TEXT[k])]
+        safe = [c for c in range(4, len(bb) - 3) if not any(o[0] < c < o[0] + o[1] for o in occ)]
+        return safe
+    for e in ([{"t": "cmp", "op": "==", "l": {"t": "scountin", "s": "$_a", "lo": {"t": "int", "v": lo}, "hi": {"t": "int", "v": hi}}, "r": {"t": "int", "v": k}}
+               for lo in (0, 3, 9) for hi in (6, 12, 18, 30) for k in (1, 2, 3)] +
+              [{"t": "sin", "s": "$_a", "lo": {"t": "int", "v": lo}, "hi": {"t": "int", "v": hi}} for lo in (0, 9, 14) for hi in (10, 16, 30)] +
+              [{"t": "sat", "s": "$_a", "x": {"t": "int", "v": x}} for x in (0, 8, 15, 17)] +
+              [{"t": "cmp", "op": "==", "l": {"t": "soff", "s": "$_a", "i": {"t": "int", "v": i}}, "r": {"t": "int", "v": v}} for i in (1, 2, 3) for v in (0, 8, 15, 17, 23)] +
+              [{"t": "ofin", "q": "n", "qv": {"t": "int", "v": 2}, "set": ["$_a", "$_b", "$_c"], "lo": {"t": "int", "v": lo}, "hi": {"t": "int", "v": hi}} for lo in (0, 9) for hi in (12, 20)]):
+        if tier == "quick" and r.random() < 0.5:
+            continue
+        bufs_, specs_ = [], []
+        for bb in blk_bufs:
+            cs = cuts_for(bb)
+            if not cs: continue
+            for _ in range(2):
+                c1 = r.choice(cs)
+                c2 = r.choice([c for c in cs if c > c1 + 3] or [None])
+                sizes = [c1, len(bb) - c1] if c2 is None or r.random() < 0.5 else [c1, c2 - c1, len(bb) - c2]
+                bufs_.append(bb); specs_.append(",".join(map(str, sizes)))
+        text = cg.show(e)[0]
+        groups.append({"src": rule_text(text), "bufs": bufs_, "blocks": specs_, "pre": EXT_DEFS}); metas.append((text + "  [data in several blocks]", e)); nblk += 1
+    res.cov["parts"]["conditions_on_multi_block_data"] = nblk
     res.cov["parts"]["of_in_range_family"] = nof
     records, owners = make_records(res, "C04", groups, metas, wd, "c04")
     judge_and_report(res, "C04", records, owners, lambda o: {"condition": o[0], "buf": o[1], "verdict": o[2], "matches": o[3]}, wd, "c04")
